@@ -4,8 +4,11 @@
 //!
 //!   sv drive <family> --out <file.ndjson> [--tier quick|thorough] [--seed N]
 //!   sv replay <family> --in <behaviours.ndjson> --out <file.ndjson>
+mod fam_a;
+mod fam_faults;
 mod fam_h;
 mod fam_o;
+mod fam_work;
 mod gen;
 mod rec;
 mod util;
@@ -27,6 +30,11 @@ fn main() {
     match (a.pos[0].as_str(), a.pos[1].as_str()) {
         ("drive", "c01") => fam_h::drive_c01(&a, &mut out),
         ("drive", "ops") => fam_o::drive_ops(&a, &mut out),
+        ("drive", "c07") => fam_faults::drive_c07(&a, &mut out),
+        ("drive", "c08") => fam_faults::drive_c08(&a, &mut out),
+        ("drive", "c10") => fam_a::drive_c10(&a, &mut out),
+        ("drive", "c19") => fam_work::drive_c19(&a, &mut out),
+        ("drive", "c10ops") => fam_a::drive_c10ops(&a, &mut out),
         (m, f) => {
             eprintln!("unknown mode/family {} {}", m, f);
             std::process::exit(2);
